@@ -160,12 +160,12 @@ def gen_specs(tier: str, r: random.Random) -> List[List[Tuple[str, List[int]]]]:
     singles = [(s, c) for s in SHAPES for c in (CONST_SETS[0], CONST_SETS[3], CONST_SETS[4])]
     pairs = list(itertools.combinations(singles, 2))
     if tier == "quick":
-        pairs = r.sample(pairs, 160)
+        pairs = r.sample(pairs, 320)
     specs += [[a, b] for a, b in pairs]
-    triples_n = 120 if tier == "quick" else 6000
+    triples_n = 300 if tier == "quick" else 6000
     for _ in range(triples_n):
         specs.append([(r.choice(SHAPES), r.choice(CONST_SETS[:5])) for _ in range(3)])
-    for _ in range(60 if tier == "quick" else 3000):
+    for _ in range(160 if tier == "quick" else 3000):
         specs.append([(r.choice(SHAPES), r.choice(CONST_SETS)) for _ in range(r.randrange(4, 9))])
     for s in SHAPES:
         specs.append([(s, CONST_SETS[0])])
